@@ -113,6 +113,7 @@ macro_rules! with_type {
             "Temperature" => $cb!(quantities::temperature::Temperature, $($args)*),
             "SynA" => $cb!(qexec::synth::SynA, $($args)*),
             "SynOne" => $cb!(qexec::synth::SynOne, $($args)*),
+            "SynX" => $cb!(qexec::synth::SynX, $($args)*),
             other => panic!("HARNESS: unknown type {}", other),
         }
     };
@@ -127,7 +128,7 @@ macro_rules! term_step {
 
 fn handle(req: &Value) -> Value {
     if s(req, "op") == "types" {
-        return json!({"types": ["AmountT", "Mass", "Length", "Duration", "DataVolume", "Temperature", "SynA", "SynOne"]});
+        return json!({"types": ["AmountT", "Mass", "Length", "Duration", "DataVolume", "Temperature", "SynA", "SynOne", "SynX"]});
     }
     let tn = s(req, "tq");
     with_type!(tn, term_step, req)
